@@ -258,8 +258,8 @@ def classTable : List (String × ClassDef) := [
   ("FunctionValue", ⟨Gen.Wiring.functionValue_initParams, Gen.Wiring.functionValue_initDefaults, Gen.Wiring.functionValue_init⟩),
   ("Trial", ⟨Gen.Wiring.trial_initParams, Gen.Wiring.trial_initDefaults, Gen.Wiring.trial_init⟩),
   ("SearchDataItem", ⟨Gen.Wiring.searchDataItem_initParams, Gen.Wiring.searchDataItem_initDefaults, Gen.Wiring.searchDataItem_init⟩),
-  ("SearchData", ⟨Gen.SearchDataCtl.searchData_initParams, ["None"], Gen.SearchDataCtl.searchData_init⟩),
-  ("CharacteristicsQueue", ⟨Gen.SearchDataCtl.characteristicsQueue_initParams, [], Gen.SearchDataCtl.characteristicsQueue_init⟩)]
+  ("SearchData", ⟨Gen.SearchDataCtl.searchData_initParams, Gen.SearchDataCtl.searchData_initDefaults, Gen.SearchDataCtl.searchData_init⟩),
+  ("CharacteristicsQueue", ⟨Gen.SearchDataCtl.characteristicsQueue_initParams, Gen.SearchDataCtl.characteristicsQueue_initDefaults, Gen.SearchDataCtl.characteristicsQueue_init⟩)]
 
 /-- class ↦ base class (for `super().__init__`) -/
 def superTable : List (String × String) := [("SearchDataItem", "Trial")]
